@@ -156,7 +156,8 @@ func panicScenario(mode string, big bool) *Desc {
 func panicChannelScenario(mode string) *Desc {
 	d := base("panic-channel-chord", mode)
 	d.Channel = 2
-	d.Mappings = []MapDesc{{Name: "M0", Keys: km{K1: {60, 0}, K4: {60, 1}}}}
+	// (the panic key also has a note in the mapping: the action wins, as for every key with both roles)
+	d.Mappings = []MapDesc{{Name: "M0", Keys: km{K1: {60, 0}, K4: {60, 1}, PA: {70, 0}}}}
 	acts(d, PA, "panic", CU, "channel_up", CD, "channel_down")
 	d.ChSet = []int{0, 1, 2}
 	return d
@@ -388,6 +389,7 @@ func jobsFor(prop, tier string) []job {
 			}
 			add(panicScenario(m, big), false, cap)
 		}
+		add(panicChannelScenario("interrupt"), false, cap)
 		for _, d := range ccScenarios(big) {
 			add(d, false, cap)
 		}
